@@ -48,6 +48,11 @@ def generate(rng, tier):
                          n_events=rng.choice([8, 12, 18, 26]) if quick else rng.choice([12, 30, 60, 100]))
         if i % 4 == 3:
             add_threaded(rng, c)
+            if rng.random() < 0.5 and c['exchange'] in ('connect', 'http'):
+                # an exception escaping handle_events (TimeoutError without errno is re-raised by read_from_descriptors):
+                # threaded run() ends up in shutdown(), whose blocking _flush must still deliver what is queued
+                c['up_plan'] = [x for x in c['up_plan'] if isinstance(x, (bytes, bytearray))] + ['timeout0']
+                c['ending'] = 'up-raise'
         cases.append(c)
     return cases
 
@@ -76,14 +81,26 @@ def oracle(case, out):
     # at every moment: nothing dropped, nothing reordered
     if fin['cout'] + fin['cpend'] != queued:
         return 'client received %d + %d still buffered != %d queued' % (len(fin['cout']), len(fin['cpend']), len(queued))
-    if fin['res'] == 0:
-        return None                       # the proxy has not ended the connection
     if client_send_error(out, case):
         return None                       # the client went away: "provided it keeps reading" does not apply
+    # prompt: once the upstream's EOF / error has been consumed or a rejection path asked for teardown, the first call
+    # that leaves the client buffer empty must be the one that returns True (no later than that)
+    pending_since = None
+    for i, (ev, s, orc) in enumerate(zip(out['events'], steps, out['oracles'])):
+        eof_now = ev.get('u_recv') in ('eof', 'reset', 'oserror', 'timeout') and s['u_taken'] and s['res'] != 2
+        rej_now = isinstance(orc['req'], list) and orc['req'][0] == 'error' or isinstance(orc['cdata'], list) and orc['cdata'][0] == 'proto'
+        if pending_since is None and (eof_now or rej_now):
+            pending_since = i
+        if pending_since is not None and s['cpend'] == 0 and s['res'] == 0:
+            return 'step %d: teardown was pending since step %d and the client buffer is empty, but handle_events returned False' % (i, pending_since)
+    if fin['res'] == 0:
+        return None                       # the proxy has not ended the connection
     threaded = bool(case.get('threaded'))
     if threaded:
         # shutdown()'s blocking flush: complete delivery whenever the scripted selector let the client keep reading
-        enough = sum(1 for x in case.get('sel', []) if isinstance(x, int) and x > 0) >= len(fin['cpend']) + len(queued)
+        sel = case.get('sel', [])
+        clean = not any(x in ('pipe', 'oserror') for x in sel)
+        enough = clean and sum(1 for x in sel if isinstance(x, int) and x > 0) >= 2 * len(queued) + 4
         if fin['cout'] != queued and enough:
             return 'threaded shutdown closed the client with %d of %d queued bytes undelivered' % (len(queued) - len(fin['cout']), len(queued))
         if not fin['cclosed']:
@@ -95,16 +112,6 @@ def oracle(case, out):
                 % (len(queued) - len(fin['cout']), len(queued), how, queued[len(fin['cout']):len(fin['cout']) + 20]))
     if not fin['cclosed']:
         return 'client socket not closed after teardown'
-    # prompt: once the upstream's EOF has been consumed or a rejection path asked for teardown, the first call that
-    # leaves the client buffer empty must be the one that returns True (no later than that)
-    pending_since = None
-    for i, (ev, s, orc) in enumerate(zip(out['events'], steps, out['oracles'])):
-        eof_now = ev.get('u_recv') in ('eof', 'reset', 'oserror', 'timeout') and s['u_taken'] and s['res'] != 2
-        rej_now = isinstance(orc['req'], list) and orc['req'][0] == 'error' or isinstance(orc['cdata'], list) and orc['cdata'][0] == 'proto'
-        if pending_since is None and (eof_now or rej_now):
-            pending_since = i
-        if pending_since is not None and s['cpend'] == 0 and s['res'] == 0:
-            return 'step %d: teardown was pending since step %d and the client buffer is empty, but handle_events returned False' % (i, pending_since)
     return None
 
 
